@@ -43,8 +43,17 @@ def analyse(ctx, cfg, res, what="canvas -d"):
             if not par[name] and exits[name] != 0:
                 sync_failed = True
     order = [s[0] for s in cfg["steps"] if s[0] not in cfg["skip"]]
-    if started != [n for n in order if n in started]:
-        ctx.violation("%s: steps started out of configuration order: %s" % (what, started), info)
+    # configuration order, except that two parallel steps launched back to back stamp their own
+    # start in either order (the probes write the stamps, not the orchestrator)
+    pos = {n: i for i, n in enumerate(order)}
+    for i, a in enumerate(started):
+        for b in started[i + 1:]:
+            if a in pos and b in pos and pos[a] > pos[b] and not (par[a] and par[b]):
+                ctx.violation("%s: step %s started before step %s, which the configuration lists first: %s" % (what, a, b, started), info)
+                break
+        else:
+            continue
+        break
     # expected outcome: runs up to and including the first failing synchronous step
     expect = []
     ok = True
@@ -53,7 +62,7 @@ def analyse(ctx, cfg, res, what="canvas -d"):
         if not par[n] and exits[n] != 0:
             ok = False
             break
-    if started != expect:
+    if sorted(started) != sorted(expect):
         ctx.violation("%s: started %s, expected %s" % (what, started, expect), info)
     has_end = any(r["name"] == "end" for r in res["rows"])
     if has_end and running:
